@@ -57,6 +57,8 @@ type StopCase struct {
 	// standard library's: deriving from it costs the standard library a watcher goroutine, which has to go
 	// away with the derived context
 	CustomCtx bool `json:",omitempty"`
+	// HoldMs: how long the gated handler stays blocked after the cancellation (cancel_gate; 0 = 30 ms)
+	HoldMs int `json:",omitempty"`
 	// Chop != 0: the master's bytes arrive in pieces (see fakemaster.ConnPlan.Chop)
 	Chop uint32 `json:",omitempty"`
 }
@@ -404,7 +406,11 @@ func runStop(c *StopCase) *StopObs {
 			if f.Kind == "cancel_gate" {
 				doCancel()
 				// stay inside the handler a little longer: Stream must not return while its handler call is still running
-				for d := time.Now().Add(30 * time.Millisecond); time.Now().Before(d) && atomic.LoadInt32(&st.returned) == 0; {
+				hold := 30
+				if c.HoldMs > 0 {
+					hold = c.HoldMs
+				}
+				for d := time.Now().Add(time.Duration(hold) * time.Millisecond); time.Now().Before(d) && atomic.LoadInt32(&st.returned) == 0; {
 					time.Sleep(200 * time.Microsecond)
 				}
 			}
